@@ -14,8 +14,13 @@ for sid in sorted(os.listdir(S)):
     m = json.load(open(mp))
     conf = json.load(open(os.path.join(d, "confirm.json"))) if os.path.exists(os.path.join(d, "confirm.json")) else None
     res = json.load(open(os.path.join(d, "result.json"))) if os.path.exists(os.path.join(d, "result.json")) else None
-    if conf is None:
-        c = "not run"
+    light = json.load(open(os.path.join(d, "confirm_light.json"))) if os.path.exists(os.path.join(d, "confirm_light.json")) else None
+    if conf is None and light is not None:
+        u = "; ".join(f"{x['crate']} --lib {sum(int(p) for _, p, _ in x['results'])} passed" for x in light.get("unit_tests_with_patch", []))
+        c = (f"light only (lib/confirm_light.py: {u}; demo fails with / passes without); full suite not re-run here" if light.get("confirmed_light")
+             else "NO (light): " + (light.get("error") or "see confirm_light.json"))
+    elif conf is None:
+        c = "not run (only the producing agent's own runs)"
     elif conf.get("confirmed"):
         e = conf["existing_tests_with_patch"]
         c = f"yes ({e['run']} existing tests of {e.get('filter', 'the workspace')} pass; demo fails with / passes without)"
